@@ -10,6 +10,7 @@ import (
 	"sort"
 	"strings"
 	"sync"
+	"time"
 )
 
 type Classifier func(f *Failure, ops []Op) string
@@ -220,7 +221,11 @@ func main() {
 	auditPath := flag.String("audit", "", "audit json written by the check script")
 	evidence := flag.String("evidence", "", "evidence file to write")
 	replay := flag.String("replay", "", "replay file")
+	luasem := flag.String("luasem", "", "dev: run a Lua file on the implementation and on the reference semantics")
 	flag.Parse()
+	if *luasem != "" {
+		os.Exit(devLuaSem(*luasem))
+	}
 	fn, ok := props[*prop]
 	if !ok {
 		fmt.Println("unknown property", *prop)
@@ -276,3 +281,31 @@ func doReplay(prop, path string) int {
 	return 0
 }
 
+
+// devLuaSem: development helper — convert a Lua file with the real parser, run it on both sides, print both outcomes.
+func devLuaSem(path string) int {
+	b, err := os.ReadFile(path)
+	if err != nil {
+		fmt.Println(err)
+		return 2
+	}
+	sx, err := LuaToSexp(string(b))
+	if err != nil {
+		fmt.Println("parse error:", err)
+		return 2
+	}
+	o := runLuaFull(string(b), 5*time.Second, nil)
+	toks := outcomeTokens(o, nil)
+	fmt.Println("IMPL:", strings.Join(toks, " "), " ", o.Msg)
+	out, err := runDriver([]string{"S eval 400000 - " + sx, "S run 400000 - " + sx + " => " + strings.Join(toks, " ")})
+	if err != nil {
+		fmt.Println(err)
+		return 2
+	}
+	fmt.Println("SPEC:", out[0])
+	fmt.Println("VERDICT:", out[1])
+	if out[1] == "ok" {
+		return 0
+	}
+	return 1
+}
